@@ -239,24 +239,24 @@ func TraceLines(id string, evs []Event, node string, names *Names) []Event {
 	}
 	var out []Event
 	for _, h := range heights {
-		started := false
+		// the engine may already act at a height before the driver records its "init" event for it (it enters the
+		// next height by itself): the execution of a height starts with its init line and contains every event
+		// of that height, wherever the init event was recorded
 		for _, e := range evs {
-			if e["node"] != node {
-				continue
-			}
-			if eh, ok := e["h"]; ok && fmt.Sprint(eh) != h {
-				continue
-			}
-			if e["ev"] == "init" {
+			if e["node"] == node && e["ev"] == "init" && fmt.Sprint(e["h"]) == h {
 				tid := id
 				if h != "1" {
 					tid = id + ".h" + h
 				}
 				out = append(out, Event{"ev": "init", "t": tid, "me": e["me"], "h": e["h"], "seq": e["seq"]})
-				started = true
+				break
+			}
+		}
+		for _, e := range evs {
+			if e["node"] != node || e["ev"] == "init" {
 				continue
 			}
-			if !started && e["ev"] != "walwrite" && e["ev"] != "walsync" {
+			if eh, ok := e["h"]; ok && fmt.Sprint(eh) != h {
 				continue
 			}
 			switch e["ev"] {
